@@ -1,4 +1,5 @@
 SPECIFICATION Spec
 CONSTANT Caught = {"TypeError","ValueError"}
 INVARIANT RebuildSound
+INVARIANT SweepComplete
 CHECK_DEADLOCK FALSE
